@@ -1387,6 +1387,9 @@ fn pw_strategy(ctx: &Ctx) -> BoxedStrategy<PwCase> {
         3 => "[ -~]{1,12}",
         1 => "[a-z]{1,3}(ä|ß|日本|🦀|é)[ -~]{0,4}",
         1 => "[0-9]{4,6}",
+        // passwords that end in white space / a line end (what a careless reader of a password
+        // file would strip): they are passwords like any other
+        1 => "[a-z0-9]{1,8}(\n|\r\n|\r| |\t)",
     ];
     let fault = prop_oneof![
         4 => (any::<u16>(), 0u8..8).prop_map(|(p, b)| KeyFault::Flip(p, b)),
@@ -1625,10 +1628,14 @@ fn run_pw(c: &PwCase, _ctx: &Ctx) -> Outcome {
                 let (_, pwi) = live[pick_idx(*sel, live.len())];
                 let pw = &c.pool[pwi];
                 let mut chars: Vec<char> = pw.chars().collect();
-                match how % 4 {
+                match how % 8 {
                     0 => chars.push(' '),
                     1 => _ = chars.pop(),
                     2 => chars.insert(0, 'x'),
+                    4 => chars.push('\n'),
+                    5 => chars.extend(['\r', '\n']),
+                    6 => chars.push('\r'),
+                    7 => chars.push('\t'),
                     _ => {
                         let k = usize::from(*how) % chars.len();
                         chars[k] = if chars[k] == 'a' { 'b' } else { 'a' };
@@ -1731,7 +1738,7 @@ pub fn spec() -> PropSpec {
             }),
             Box::new(Sub {
                 name: "password",
-                cases_quick: 24,
+                cases_quick: 48,
                 cases_thorough: 480,
                 max_shrink_iters: 30,
                 strategy: pw_strategy,
